@@ -222,3 +222,201 @@ def check_cost(ctx, res, config="all"):
     res.assume("elementary work = total row length of mac_digit calls; linear-term overhead (additions, allocation) not counted")
     res.assume("recursive operand sizes follow the split divisors read from the code (halves / thirds + 1), signed middle terms at full length")
     res.clause("R8: the work recurrence implied by mac3's regime tests (thresholds, fan-outs read from MIR) satisfies doubling ratio <= ~3, W(4096) < 4096^2/4, unbalanced <= schoolbook")
+
+
+# ------------------------------------------------------------------------------------------
+# generalised extraction: the regime dispatch as a decision procedure over (|x|, |y|)
+
+
+def _len_expr(b, atoms_cache, op, n, m, depth=0):
+    """value of an integer operand that is an expression over len(x)=n (tuple field 0) and len(y)=m (field 1)"""
+    c = op_const(op)
+    if c is not None and not isinstance(c, bool):
+        return c
+    pl = core.op_place(op)
+    if pl is None or depth > 12:
+        return None
+    l = pl["local"]
+    ds = b.defs().get(l, [])
+    if len(ds) != 1:
+        return None
+    d = ds[0]
+    if d[0] == "call":
+        t = d[2]
+        if callee_name(t) == "len" and t["args"]:
+            a = atoms_cache.of_operand(t["args"][0])
+            f0 = any(x[0] == "param" and x[2][:1] == ("0",) for x in a)
+            f1 = any(x[0] == "param" and x[2][:1] == ("1",) for x in a)
+            if f0 and not f1:
+                return n
+            if f1 and not f0:
+                return m
+        return None
+    if d[0] == "assign":
+        rv = d[3]["rv"]
+        if rv["k"] == "use":
+            return _len_expr(b, atoms_cache, rv["op"], n, m, depth + 1)
+        if rv["k"] == "binop":
+            x = _len_expr(b, atoms_cache, rv["a"], n, m, depth + 1)
+            y = _len_expr(b, atoms_cache, rv["b"], n, m, depth + 1)
+            if x is None or y is None:
+                return None
+            o = rv["op"].replace("WithOverflow", "").replace("Unchecked", "")
+            if o == "Add":
+                return x + y
+            if o == "Sub":
+                return x - y
+            if o == "Mul":
+                return x * y
+            if o == "Div":
+                return x // y if y else None
+            return None
+    return None
+
+
+def regime_at(facts, b, n, m, rec_calls, atoms_cache, tl):
+    """blocks reachable for operand lengths (n, m): length tests are decided, every other branch is explored both ways"""
+    tests_by_bb = {t.bb: t for t in tl if t.cond is not None and t.cond.kind == "cmp"}
+    seen = set()
+    stack = [0]
+    while stack:
+        x = stack.pop()
+        if x in seen:
+            continue
+        seen.add(x)
+        t = tests_by_bb.get(x)
+        nxt = b.succ(x)
+        if t is not None:
+            c = t.cond
+            va = _len_expr(b, atoms_cache, c.ra, n, m)
+            vb = _len_expr(b, atoms_cache, c.rb, n, m)
+            if va is not None and vb is not None and ("len" in calls_of(c.a) or "len" in calls_of(c.b)):
+                r = {"Lt": va < vb, "Le": va <= vb, "Gt": va > vb, "Ge": va >= vb, "Eq": va == vb, "Ne": va != vb}[c.op]
+                nxt = [t.t if r else t.f]
+        stack.extend(nxt)
+    calls = rec_calls & seen
+    divs = set()
+    for x in seen:
+        for s in b.blocks[x]["stmts"]:
+            rv = s.get("rv")
+            if rv and rv["k"] == "binop" and rv["op"] == "Div" and op_const(rv["b"]) in (2, 3, 4, 5, 6, 7):
+                divs.add(op_const(rv["b"]))
+    x_split = False
+    for x in seen:
+        t = b.blocks[x]["term"]
+        if t["k"] == "call" and callee_name(t) == "split_at" and t["args"]:
+            a = atoms_cache.of_operand(t["args"][0])
+            if any(z[0] == "param" and z[2][:1] == ("0",) for z in a):
+                x_split = True
+    fan = _max_calls_in(b, seen, calls)
+    return {"calls": fan, "divs": divs, "x_split": x_split, "blocks": seen}
+
+
+def _max_calls_in(b, region, call_blocks):
+    memo = {}
+    on = set()
+
+    def go(x):
+        if x in memo:
+            return memo[x]
+        if x in on:
+            return 0
+        on.add(x)
+        best = 0
+        for s in b.succ(x):
+            if s in region:
+                best = max(best, go(s))
+        on.discard(x)
+        memo[x] = best + (1 if x in call_blocks else 0)
+        return memo[x]
+
+    return go(0)
+
+
+class Recurrence:
+    def __init__(self, facts):
+        self.facts = facts
+        self.b = facts.body("biguint::multiplication::mac3")
+        self.tl, self.atoms = tests_of(self.b)
+        R = _reaches(facts, self.b.path)
+        self.rec_calls = {i for i, t in self.b.calls() if i in self.b.live_blocks() and callee(t) in R}
+        self.memo = {}
+        self.sig_memo = {}
+        self.unknown = None
+
+    def signature(self, n, m):
+        key = (n, m)
+        if key not in self.sig_memo:
+            r = regime_at(self.facts, self.b, n, m, self.rec_calls, self.atoms, self.tl)
+            self.sig_memo[key] = (r["calls"], frozenset(r["divs"]), r["x_split"])
+        return self.sig_memo[key]
+
+    def W(self, n, m):
+        if n > m:
+            n, m = m, n
+        if n <= 0:
+            return 0
+        key = (n, m)
+        if key in self.memo:
+            return self.memo[key]
+        calls, divs, x_split = self.signature(n, m)
+        if calls == 0:
+            w = n * m
+        elif divs == frozenset({2}) and not x_split:
+            m2 = m // 2
+            w = self.W(n, m2) + (calls - 1) * self.W(n, m - m2)
+        elif divs == frozenset({2}) and x_split:
+            h = n // 2
+            w = self.W(h, h) + (calls - 1) * self.W(n - h, m - h)
+        elif 3 in divs:
+            i = m // 3 + 1
+            w = calls * self.W(min(n, i + 1), i + 1)
+        else:
+            self.unknown = (n, m, calls, sorted(divs), x_split)
+            w = calls * self.W(n, m - 1) if m > 1 else n * m
+        self.memo[key] = w
+        return w
+
+
+def check_cost_general(ctx, res, config="all"):
+    """the same inequalities, on a recurrence whose regime for each (n, m) is obtained by deciding mac3's own length tests"""
+    facts = ctx.facts(config)
+    b = facts.body("biguint::multiplication::mac3")
+    if b is None:
+        res.fail(Finding("R8-anchor-lost", "mac3", "mac3 not found", file="src/biguint/multiplication.rs", line=0))
+        return
+    sys.setrecursionlimit(100000)
+    rc = Recurrence(facts)
+    if len(rc.rec_calls) < 3:
+        res.fail(Finding("R8-anchor-lost", "recursive-calls", "only %d recursive product sites found in mac3" % len(rc.rec_calls), b))
+        return
+    # who may call the row routine: only mac3 (any other caller is a multiplication that bypasses the regime dispatch)
+    callers = sorted({x.path for x in facts.bodies for i, t in x.calls() if (callee(t) or "").endswith("multiplication::mac_digit") and i in x.live_blocks()})
+    if callers == ["biguint::multiplication::mac3"]:
+        res.ok("R8-row-routine-callers", "mac_digit", {"callers": callers})
+    else:
+        res.fail(Finding("R8-row-routine-callers", "mac_digit", "the schoolbook row routine mac_digit is called from %s: a product computed there bypasses mac3's sub-quadratic regime dispatch" % [c for c in callers if not c.endswith("::mac3")], b))
+    for n in (256, 512, 1024, 2048, 4096, 8192):
+        r = rc.W(2 * n, 2 * n) / rc.W(n, n)
+        key = "W(%d)/W(%d)" % (2 * n, n)
+        if r <= 3.2:
+            res.ok("R8-doubling-general", key, {"ratio": round(r, 3)})
+        else:
+            res.fail(Finding("R8-doubling", key, "with the regime decided by mac3's own length tests, doubling %d -> %d digits multiplies the elementary work by %.2f (> 3.2)" % (n, 2 * n, r), b))
+    w = rc.W(4096, 4096)
+    if w < 4096 * 4096 / 4:
+        res.ok("R8-quarter-general", "W(4096,4096)", {"work": w, "fraction": round(w / (4096 * 4096), 4)})
+    else:
+        res.fail(Finding("R8-quarter", "W(4096,4096)", "4096 x 4096 digits needs %d digit multiplications, not fewer than a quarter of %d" % (w, 4096 * 4096), b))
+    for n in (40, 64, 200, 300, 1000):
+        for m in (2 * n - 1, 2 * n, 64 * n):
+            w = rc.W(n, m)
+            key = "W(%d,%d)" % (n, m)
+            if w <= n * m:
+                res.ok("R8-unbalanced-general", key, None, nontrivial=False)
+            else:
+                res.fail(Finding("R8-unbalanced", key, "unbalanced product %dx%d costs %d > schoolbook %d" % (n, m, w, n * m), b))
+    if rc.unknown:
+        res.fail(Finding("R8-regime-structure", "unknown-regime", "cannot derive a cost recurrence for the regime reached at lengths %s (calls=%s, split divisors=%s, x split=%s)" % (rc.unknown[:2], rc.unknown[2], rc.unknown[3], rc.unknown[4]), b))
+    res.count("R8 distinct (n,m) regimes evaluated", len(rc.sig_memo))
+    res.clause("R8 (general): for every (|x|,|y|) the regime is obtained by deciding mac3's own length comparisons; the resulting recurrence satisfies the same inequalities; mac_digit is called from mac3 only")
